@@ -54,6 +54,17 @@ CLAIMS = {
         "total order of i64 / str / non-NaN f64, serde_json as_i64/as_f64/as_str returning None on a type mismatch.",
         "static analysis: symbolic evaluation of typed HIR + exhaustive ordering abstraction (all weak orderings)",
         "DESIGN.md §3 C12"),
+    "C07": (
+        "R1 both backends index a chunk under every bucket B(min), B(min)+H, ... <= B(max): the loop's exit edge implies bucket > end (strict), the index "
+        "update is guarded by the other edge, the step is H, all hour constants (assoc consts, literals in hour_bucket and in the inlined lookup) are "
+        "equal and hour_bucket is (t / H) * H; R2 TimeRange::overlaps, symbolically evaluated from HIR, equals 'exists x in both closed intervals' on "
+        "every weak ordering of the four end points with a<=b, c<=d (exhaustive), contains likewise; R3 an edge implying range.start <= range.end "
+        "dominates BTreeMap::range and overlaps in both lookups; R4 inclusive bucket scan from B(range.start) to B(range.end), seen-set skip, push only "
+        "on the true edge of overlaps(chunk-map interval, query range); R5 delete / swap remove the path from map and index. Not decided: monotonicity "
+        "of truncating division (hand argument in DESIGN.md), equality of the two backends on whole histories.",
+        "Trusted: rustc / driver / engine; BTreeMap::range and HashSet semantics; the hour constant 3_600_000_000_000 as reference.",
+        "static analysis: MIR comparison-edge dominance + value provenance; HIR symbolic evaluation with exhaustive ordering abstraction; constant agreement",
+        "DESIGN.md §3 C07"),
 }
 
 NOT_YET = "rule set under construction in this round; see DESIGN.md §3 for the planned static rules"
